@@ -910,20 +910,25 @@ CHECKS = {"scale": chk_scale, "add": chk_add, "add_unequal": chk_add_unequal, "n
 def make_replayer(fn):
     def rp(fid, *args):
         try:
-            with watchdog(5):
+            with watchdog(30):
                 return any(f == fid for f, _ in CHECKS[fn](*args))
         except Timeout:
-            return True
+            return fid.endswith("/non-termination")
     return rp
 
 
 def run_case(R, fn, args, nontrivial=True):
     sample = {"check": fn, "args": args} if R.cur["cases"] < 2 else None
     try:
-        with watchdog(5):
-            viols = CHECKS[fn](*args)
+        try:
+            with watchdog(5):
+                viols = CHECKS[fn](*args)
+        except Timeout:
+            # a stalled machine is not a hang: only a second, longer attempt counts
+            with watchdog(30):
+                viols = CHECKS[fn](*args)
     except Timeout:
-        viols = [(fn + "/non-termination", "no result within 5 s")]
+        viols = [(fn + "/non-termination", "no result within 5 s and again within 30 s")]
     except Exception as e:
         viols = [(fn + "/harness-exception-" + type(e).__name__, traceback.format_exc()[-300:])]
     R.case(nontrivial, sample)
